@@ -147,6 +147,37 @@ Proof.
   rewrite (find_one_std s _ tail Hs). reflexivity.
 Qed.
 
+(* construction succeeds exactly on the standard addresses *)
+Lemma addr_make_of_ok a : addr_ok a ->
+  addr_make (Z.of_N (a_logical a)) (option_map Z.of_N (a_physical a)) (a_server a) = Ok a.
+Proof.
+  destruct a as [[l [p|]] [|]]; cbn [addr_ok a_logical a_physical a_server fst snd option_map]; intros H; try contradiction;
+    unfold addr_make, validate_addr_value.
+  - destruct H as [A B].
+    destruct (Z.ltb_spec 16383 (Z.of_N l)); [lia|]. destruct (Z.ltb_spec (Z.of_N l) 0); [lia|].
+    destruct (Z.ltb_spec 16383 (Z.of_N p)); [lia|]. destruct (Z.ltb_spec (Z.of_N p) 0); [lia|].
+    cbn. rewrite !N2Z.id. reflexivity.
+  - destruct (Z.ltb_spec 16383 (Z.of_N l)); [lia|]. destruct (Z.ltb_spec (Z.of_N l) 0); [lia|].
+    destruct (Z.ltb_spec 127 (Z.of_N l)); [lia|]. cbn. rewrite !N2Z.id. reflexivity.
+  - destruct (Z.ltb_spec 127 (Z.of_N l)); [lia|]. destruct (Z.ltb_spec (Z.of_N l) 0); [lia|].
+    cbn. rewrite !N2Z.id. reflexivity.
+Qed.
+(* every address the library accepts is one the standard can express (since the repair of F13a / F13d) *)
+Theorem addr_accepted_is_standard l p server a : addr_make l p server = Ok a -> addr_ok a.
+Proof.
+  unfold addr_make, validate_addr_value.
+  destruct server.
+  - destruct (Z.ltb_spec 16383 l); [discriminate|]. destruct (Z.ltb_spec l 0); [discriminate|]. cbn [negb andb].
+    destruct p as [pz|].
+    + destruct (Z.ltb_spec 16383 pz); [discriminate|]. destruct (Z.ltb_spec pz 0); [discriminate|]. cbn [negb andb].
+      intros [= <-]. cbn [addr_ok]. lia.
+    + cbn [andb]. destruct (Z.ltb_spec 127 l); [discriminate|]. intros [= <-]. cbn [addr_ok]. lia.
+  - destruct (Z.ltb_spec 127 l); [discriminate|]. destruct (Z.ltb_spec l 0); [discriminate|]. cbn [negb andb].
+    destruct p as [pz|].
+    + destruct (Z.ltb_spec 127 pz); [discriminate|]. destruct (Z.ltb_spec pz 0); discriminate.
+    + intros [= <-]. cbn [addr_ok]. lia.
+Qed.
+
 (* constructing the address objects from the located values gives back the same address *)
 Theorem addr_objects_roundtrip d s f1 f2 tail : addr_ok d -> addr_ok s ->
   let f := [126; f1; f2] ++ addr_to_bytes d ++ addr_to_bytes s ++ tail in
@@ -154,30 +185,9 @@ Theorem addr_objects_roundtrip d s f1 f2 tail : addr_ok d -> addr_ok s ->
 Proof.
   intros Hd Hs f. unfold destination_from_bytes, source_from_bytes. subst f.
   rewrite (addr_locate_decode_roundtrip d s f1 f2 tail Hd Hs). cbn [bind fst snd].
-  split.
-  - destruct d as [[l [p|]] [|]]; cbn [addr_ok a_logical a_physical a_server fst snd option_map] in *; try contradiction.
-    + destruct Hd as [A B]. unfold addr_make, validate_addr_value.
-      destruct (Z.ltb_spec 16383 (Z.of_N l)); [lia|]. destruct (Z.ltb_spec (Z.of_N l) 0); [lia|].
-      destruct (Z.ltb_spec 16383 (Z.of_N p)); [lia|]. destruct (Z.ltb_spec (Z.of_N p) 0); [lia|].
-      cbn. rewrite !N2Z.id. reflexivity.
-    + unfold addr_make, validate_addr_value.
-      destruct (Z.ltb_spec 16383 (Z.of_N l)); [lia|]. destruct (Z.ltb_spec (Z.of_N l) 0); [lia|].
-      cbn. rewrite !N2Z.id. reflexivity.
-    + unfold addr_make, validate_addr_value.
-      destruct (Z.ltb_spec 127 (Z.of_N l)); [lia|]. destruct (Z.ltb_spec (Z.of_N l) 0); [lia|].
-      cbn. rewrite !N2Z.id. reflexivity.
-  - destruct s as [[l [p|]] [|]]; cbn [addr_ok a_logical a_physical a_server fst snd option_map] in *; try contradiction.
-    + destruct Hs as [A B]. unfold addr_make, validate_addr_value.
-      destruct (Z.ltb_spec 16383 (Z.of_N l)); [lia|]. destruct (Z.ltb_spec (Z.of_N l) 0); [lia|].
-      destruct (Z.ltb_spec 16383 (Z.of_N p)); [lia|]. destruct (Z.ltb_spec (Z.of_N p) 0); [lia|].
-      cbn. rewrite !N2Z.id. reflexivity.
-    + unfold addr_make, validate_addr_value.
-      destruct (Z.ltb_spec 16383 (Z.of_N l)); [lia|]. destruct (Z.ltb_spec (Z.of_N l) 0); [lia|].
-      cbn. rewrite !N2Z.id. reflexivity.
-    + unfold addr_make, validate_addr_value.
-      destruct (Z.ltb_spec 127 (Z.of_N l)); [lia|]. destruct (Z.ltb_spec (Z.of_N l) 0); [lia|].
-      cbn. rewrite !N2Z.id. reflexivity.
+  split; apply addr_make_of_ok; assumption.
 Qed.
+
 
 (* never attributed to a different station: two accepted addresses of the same kind with the
    same bytes are the same address *)
@@ -200,8 +210,3 @@ Proof.
     cbn; try reflexivity; lia.
 Qed.
 
-(* known finding F13a, as a refutation of the full statement: a server address with a two-byte
-   upper part and no lower part is accepted, but its bytes are those of a different station *)
-Theorem addr_roundtrip_refuted : exists a, addr_make 200 None true = Ok a /\
-  find_one (addr_to_bytes a) 0 = Ok (1, Some 72, 2%nat).
-Proof. eexists. split; [reflexivity|]. vm_compute. reflexivity. Qed.
